@@ -56,6 +56,8 @@ pub fn parse_value(s: &str) -> DataValue {
         Some(("f", v)) => DataValue::Float(v.parse::<i64>().unwrap_or(0) as f64 / 4.0),
         // `d:<milliseconds>` (UTC) or `d:<milliseconds>@<offset in minutes>`
         // (an offset with seconds: `@<minutes>s<seconds>`)
+        // (a fraction below the millisecond: `d:<milliseconds>n<nanoseconds>…`)
+        Some(("d", v)) if v.contains('n') => { let (head, off) = match v.split_once('@') { Some((a, b)) => (a, format!("@{}", b)), None => (v, String::new()) }; let (ms, ns) = head.split_once('n').unwrap(); match parse_value(&format!("d:{}{}", ms, off)) { DataValue::Datetime(d) => DataValue::Datetime(d + chrono::Duration::nanoseconds(ns.parse().unwrap_or(0))), x => x } }
         Some(("d", v)) => { let (ms, off) = match v.split_once('@') { Some((a, b)) => (a, match b.split_once('s') { Some((m, sec)) => m.parse::<i32>().unwrap_or(0) * 60 + sec.parse::<i32>().unwrap_or(0), None => b.parse::<i32>().unwrap_or(0) * 60 }), None => (v, 0) }; let utc = DateTime::from_timestamp_millis(ms.parse().unwrap_or(0)).unwrap(); DataValue::Datetime(utc.with_timezone(&FixedOffset::east_opt(off).unwrap_or(FixedOffset::east_opt(0).unwrap()))) }
         Some(("l", v)) => DataValue::List(v.split('|').filter(|x| !x.is_empty()).map(parse_value).collect()),
         _ => DataValue::Null,
@@ -69,6 +71,7 @@ pub fn show_value(v: &DataValue) -> String {
         DataValue::Bool(b) => format!("b:{}", *b as u8),
         DataValue::Null => "n".into(),
         DataValue::Float(f) => format!("f:{}", (*f * 4.0) as i64),
+        DataValue::Datetime(d) if d.timestamp_subsec_nanos() % 1_000_000 != 0 => { let whole = *d - chrono::Duration::nanoseconds((d.timestamp_subsec_nanos() % 1_000_000) as i64); let base = show_value(&DataValue::Datetime(whole)); let (head, off) = match base.split_once('@') { Some((a, b)) => (a.to_string(), format!("@{}", b)), None => (base.clone(), String::new()) }; format!("{}n{}{}", head, d.timestamp_subsec_nanos() % 1_000_000, off) }
         DataValue::Datetime(d) => { let secs = d.offset().local_minus_utc(); let off = secs / 60; if secs == 0 { format!("d:{}", d.timestamp_millis()) } else if secs % 60 != 0 { format!("d:{}@{}s{}", d.timestamp_millis(), off, secs % 60) } else { format!("d:{}@{}", d.timestamp_millis(), off) } }
         DataValue::List(l) => format!("l:{}", l.iter().map(show_value).collect::<Vec<_>>().join("|")),
     }
